@@ -11,20 +11,20 @@ Matrix* Matrix::add(CSRMatrix* B, bool remove_dup)
     CSRMatrix* A = to_CSR();
     CSRMatrix* C = new CSRMatrix(n_rows, n_cols, 2*nnz);
     A->add_append(B, C, remove_dup);
-    delete A;
+    if (A != this) delete A; // to_CSR() of a CSRMatrix is the matrix itself
     return C;
 }
 void Matrix::add_append(CSRMatrix* B, CSRMatrix* C, bool remove_dup)
 {
     CSRMatrix* A = to_CSR();
     A->add_append(B, C, remove_dup);
-    delete A;
+    if (A != this) delete A; // to_CSR() of a CSRMatrix is the matrix itself
 }
 Matrix* Matrix::subtract(CSRMatrix* B)
 {
     CSRMatrix* A = to_CSR();
     CSRMatrix* C = A->subtract(B);
-    delete A;
+    if (A != this) delete A; // to_CSR() of a CSRMatrix is the matrix itself
     return C;
 }
 
